@@ -36,6 +36,16 @@ Proof.
   rewrite Hmut in Hok. cbn in Hok. destruct (immutable_is_safe_callable spec T m); [discriminate|reflexivity].
 Qed.
 
+(* every form of stored reference is judged by the method it ends up calling *)
+Lemma safe_ref_by_target : forall spec r T m, ref_target r = Some (T, m) ->
+  immutable_safe_ref spec r = immutable_is_safe_callable spec T m.
+Proof.
+  intros spec r. induction r as [T0 m0|T0 m0|r IH|]; intros T m H; cbn in *; try discriminate.
+  - injection H as -> ->. reflexivity.
+  - injection H as -> ->. reflexivity.
+  - exact (IH T m H).
+Qed.
+
 (* rows that fail, for the search: computed by the same definitions *)
 Definition failing_rows (tb : tables) (spec : list row) (pubs : btype -> list string) : list (btype * string) :=
   flat_map (fun T => map (fun m => (T, m))
